@@ -2867,6 +2867,7 @@ impl KnowledgeGraph {
     /// Returns error if schema already exists or is invalid.
     /// Saves the catalog to disk on success.
     pub fn register_schema(&mut self, schema: RelationSchema) -> Result<(), String> {
+        self.validate_existing_data_against(&schema)?;
         self.schema_catalog
             .register(schema)
             .map_err(|e| format!("{e}"))?;
@@ -2878,6 +2879,7 @@ impl KnowledgeGraph {
     ///
     /// Overwrites any existing schema. Saves to disk on success.
     pub fn register_or_update_schema(&mut self, schema: RelationSchema) -> Result<(), String> {
+        self.validate_existing_data_against(&schema)?;
         self.schema_catalog
             .register_or_update(schema)
             .map_err(|e| format!("{e}"))?;
@@ -2899,6 +2901,7 @@ impl KnowledgeGraph {
         &mut self,
         schema: RelationSchema,
     ) -> Result<(), String> {
+        self.validate_existing_data_against(&schema)?;
         self.schema_catalog
             .register_or_update_session(schema)
             .map_err(|e| format!("{e}"))
@@ -2945,6 +2948,25 @@ impl KnowledgeGraph {
             engine
                 .validate_batch(schema, tuples)
                 .map_err(|e| format!("{e}"))?;
+        }
+        Ok(())
+    }
+
+    /// Data-first schema declaration: the facts already stored for the relation must
+    /// conform, otherwise the declaration is refused (a schema is a guarantee about
+    /// every stored tuple, not only about future inserts).
+    fn validate_existing_data_against(&self, schema: &RelationSchema) -> Result<(), String> {
+        if let Some(existing) = self.engine.input_tuples.get(&schema.name) {
+            if !existing.is_empty() {
+                ValidationEngine::new()
+                    .validate_existing_data(schema, existing)
+                    .map_err(|e| {
+                        format!(
+                            "existing data in '{}' does not conform to the schema: {e}",
+                            schema.name
+                        )
+                    })?;
+            }
         }
         Ok(())
     }
